@@ -9,8 +9,9 @@ import (
 type FileSpec struct {
 	Name    string // file / Go package name
 	FD      *FDP
-	Feature string // the feature group this file isolates (used in signatures)
-	Core    bool   // part of the reduced corpus used for the non-default option combinations
+	Feature string   // the feature group this file isolates (used in signatures)
+	Core    bool     // part of the reduced corpus used for the non-default option combinations
+	Imports []string // names of other corpus files of the same variant this file imports (they precede it)
 }
 
 // allKinds = 15 scalars + enum + message, as "typ" strings relative to a package that defines Color and Inner.
@@ -240,6 +241,22 @@ func Corpus(c *Ctx) []*FileSpec {
 		add("extdefault", "extension-defaults", false, f)
 	}
 
+	{ // extension numbers at the ends of "extensions 100 to max" and around the reserved 19000-19999 block
+		f := c.File("extmax", "proto2")
+		pkg := c.Pkg("extmax")
+		base := Msg("Base", F("base", 1, Opt, "int32"))
+		ExtRange(base, 100, 1<<29-1) // extensions 100 to max
+		holder := Msg("Holder")
+		holder.Extension = append(holder.Extension,
+			Ext("x_lo", 100, Opt, "int32", FullName(pkg, "Base")),
+			Ext("x_before_reserved", 18999, Opt, "string", FullName(pkg, "Base")),
+			Ext("x_after_reserved", 20000, Opt, "sint64", FullName(pkg, "Base")),
+			Ext("x_max_minus_1", 1<<29-2, Opt, "bytes", FullName(pkg, "Base")),
+			Ext("x_max", 1<<29-1, Opt, "int32", FullName(pkg, "Base")))
+		f.MessageType = append(f.MessageType, base, holder)
+		add("extmax", "extension-number-limits", false, f)
+	}
+
 	// ---- field numbers at key-size boundaries ----
 	{
 		f := c.File("numbers", "proto3")
@@ -321,6 +338,56 @@ func Corpus(c *Ctx) []*FileSpec {
 		last.NestedType = append(last.NestedType, Msg("KidB", F("need", 1, Req, "bytes")))
 		f.MessageType = append(f.MessageType, first, second, last)
 		add("reqlast", "required-only-in-last-nested-message", true, f)
+	}
+
+	{ // two nested message types sharing a SHORT name, the earlier without and the later with a required field
+		// (file-per-message output of this file collides on the file name: the recorded C16 finding)
+		f := c.File("reqshadow", "proto2")
+		pkg := c.Pkg("reqshadow")
+		query := Msg("Query", F("o", 1, Opt, FullName(pkg, "Query", "Options")), F("q", 2, Opt, "string"))
+		query.NestedType = append(query.NestedType, Msg("Options", F("limit", 1, Opt, "int32")))
+		reply := Msg("Reply", F("o", 1, Opt, FullName(pkg, "Reply", "Options")), F("list", 2, Rep, FullName(pkg, "Reply", "Options")), F("r", 4, Opt, "string"))
+		reply.NestedType = append(reply.NestedType, Msg("Options", F("code", 1, Req, "int32"), F("note", 2, Opt, "string")))
+		MapField(reply, FullName(pkg, "Reply"), "by_name", 3, "string", FullName(pkg, "Reply", "Options"))
+		other := Msg("Other", F("need", 1, Req, "string"))
+		f.MessageType = append(f.MessageType, query, reply, other)
+		add("reqshadow", "required-in-later-message-of-same-short-name", true, f)
+	}
+
+	// ---- imports: types that live in ANOTHER .proto / Go package than the file being generated ----
+	{ // the imported file: its Go package name (impdeppb) differs from the last element of its import path (impdep)
+		f := c.File("impdep", "proto3")
+		f.Options.GoPackage = proto.String(c.GoPrefix + "/impdep;impdeppb")
+		pkg := c.Pkg("impdep")
+		f.EnumType = append(f.EnumType, &descriptorpb.EnumDescriptorProto{Name: proto.String("Unit"), Value: []*descriptorpb.EnumValueDescriptorProto{
+			{Name: proto.String("UNIT_NONE"), Number: proto.Int32(0)}, {Name: proto.String("UNIT_S"), Number: proto.Int32(1)}, {Name: proto.String("UNIT_MS"), Number: proto.Int32(2)}}})
+		f.MessageType = append(f.MessageType, Msg("Stamp", F("t", 1, Opt, "int64"), F("zone", 2, Opt, "string"), F("unit", 3, Opt, "enum:"+FullName(pkg, "Unit"))))
+		add("impdep", "imported-package", true, f)
+	}
+	{ // importer: message / enum / repeated / map / oneof fields of imported types
+		f := c.File("imp3", "proto3")
+		f.Dependency = []string{c.PathPrefix + "/impdep.proto"}
+		dep := c.Pkg("impdep")
+		m := Msg("Uses", F("at", 1, Opt, FullName(dep, "Stamp")), F("hist", 2, Rep, FullName(dep, "Stamp")), F("label", 5, Opt, "string"))
+		if !c.GogoWKT {
+			// (not for gogo: protobuf-go's legacy wrapper, which the harness bridge uses to reach gogo structs, cannot
+			// resolve an enum imported from another gogo-registered file and panics on the placeholder it substitutes)
+			m.Field = append(m.Field, F("unit", 3, Opt, "enum:"+FullName(dep, "Unit")), F("units", 4, Rep, "enum:"+FullName(dep, "Unit")))
+		}
+		MapField(m, FullName(c.Pkg("imp3"), "Uses"), "by_name", 6, "string", FullName(dep, "Stamp"))
+		Oneof(m, "pick", F("o_stamp", 7, Opt, FullName(dep, "Stamp")), F("o_text", 8, Opt, "string"))
+		f.MessageType = append(f.MessageType, m)
+		add("imp3", "fields-of-imported-types", true, f)
+		out[len(out)-1].Imports = []string{"impdep"}
+	}
+	{ // a proto3 message that contains proto2 messages with required fields (defined in file "required")
+		f := c.File("p3req", "proto3")
+		f.Dependency = []string{c.PathPrefix + "/required.proto"}
+		dep := c.Pkg("required")
+		m := Msg("Outer", F("name", 1, Opt, "string"), F("child", 2, Opt, FullName(dep, "Need")), F("kids", 3, Rep, FullName(dep, "Need")), F("n", 4, Opt, "int32"))
+		f.MessageType = append(f.MessageType, m)
+		add("p3req", "proto3-message-with-proto2-required-children", true, f)
+		out[len(out)-1].Imports = []string{"required"}
 	}
 
 	// ---- composites: everything healthy at once ----
